@@ -144,9 +144,18 @@ var utf8Atoms = [][]byte{
 	{0xC0, 0xAF}, {0xE0, 0x80, 0xAF}, // overlong
 	{0xED, 0xA0, 0x80},               // encoded surrogate
 	{0xF5, 0x80, 0x80, 0x80}, {0xFF}, // out of range
+	// boundary cases of each rule of the encoding
+	{0xF4, 0x90, 0x80, 0x80}, {0xF4, 0xBF, 0xBF, 0xBF}, // beyond U+10FFFF with a legal lead byte
+	{0xC1, 0xBF}, {0xE0, 0x9F, 0xBF}, {0xF0, 0x8F, 0xBF, 0xBF}, // largest overlong forms
+	{0xED, 0xBF, 0xBF}, {0xED, 0xB0, 0x80}, // last surrogate, first low surrogate
+	{0xF8, 0x88, 0x80, 0x80, 0x80}, {0xFE}, // five-byte form, FE
+	{0xC2}, {0xDF}, {0xEF, 0xBF}, {0xF4, 0x8F, 0xBF}, // truncated right below a boundary
+	{0xE1, 0x80, 0xC0}, {0xF1, 0x80, 0x80, 0x7F}, // bad continuation byte in the last position
 }
 
-var utf8AtomNames = []string{"stray-80", "stray-BF", "trunc-2", "trunc-3", "trunc-4", "overlong-2", "overlong-3", "surrogate", "above-F4", "FF"}
+var utf8AtomNames = []string{"stray-80", "stray-BF", "trunc-2", "trunc-3", "trunc-4", "overlong-2", "overlong-3", "surrogate", "above-F4", "FF",
+	"beyond-10FFFF-F490", "beyond-10FFFF-F4BF", "overlong-C1", "overlong-E09F", "overlong-F08F", "surrogate-EDBFBF", "surrogate-low", "five-byte", "FE",
+	"trunc-C2", "trunc-DF", "trunc-EFBF", "trunc-F48FBF", "bad-cont-3", "bad-cont-4"}
 
 var placementNames = []string{"after-backslash", "inside-string-value", "inside-key", "inside-number-or-literal", "between-tokens"}
 
@@ -203,7 +212,7 @@ func placements(b []byte) [5][]int {
 }
 
 var diskFaults = []string{"none", "torn", "torn", "torn", "utf8", "utf8", "bitflip", "garbage-span", "dropped-span", "duplicated-span",
-	"zero-tail", "random-bytes", "decorated", "read-fault", "read-fault", "tiny-inputs", "rewrite-in-place"}
+	"zero-tail", "random-bytes", "decorated", "read-fault", "read-fault", "tiny-inputs", "rewrite-in-place", "token-soup", "transcoded", "very-deep"}
 
 func genDocument(s *simrt.Sim, objRoot bool) (any, string) {
 	o := treeOpts{depth: 1 + s.Draw("doc-depth", 3), width: 1 + s.Draw("doc-width", 6), jsonSafe: true}
@@ -457,6 +466,94 @@ func runDisk(ch *simrt.Chooser, opt Options) RunResult {
 			}
 			res.Faults = append(res.Faults, fmt.Sprintf("torn write: %d cut points", len(cuts)))
 			res.Finger = fnv(0, hashString("torn"), hashString(doc))
+		case "token-soup":
+			// JSON-ish tokens in random order, cut at a random point: number and escape spellings no serialiser emits
+			toks := []string{"[", "]", "{", "}", "\"", "\"", ":", ",", ",", " ", "\n", "\r\n", "\t", "true", "false", "null", "tru", "nul", "True",
+				"0", "-", "-0", "0x1F", "1e999", "-1e999", "+1", "--1", "1e", "1e+", ".5", "5.", "01", "1_000", strings.Repeat("9", 400), "9223372036854775808", "1E5", "0e0", "Infinity", "NaN",
+				"\\n", "\\\"", "\\\\", "\\/", "\\u0041", "\\ud83d", "\\ude00", "\\uD83D\\uDE00", "\\u", "\\uD8", "\\ud83d\\u", "\\ud83d\\ud", "\\udbff\\u", "\\x41", "\\a", "\\U0001F600", "\\", "\\u00",
+				"key", "a", "é", "😀", "\x00", "\x7f", "\xef\xbb\xbf", "\xff\xfe", "\xc3", "/*c*/", "//c\n", "'s'"}
+			for round := 0; round < 40 && !d.failed; round++ {
+				var sb strings.Builder
+				if s.Draw("soup-root", 3) > 0 {
+					sb.WriteString([]string{"[", "{", "[\"", "{\"k\":", "{\"k\":\"", "[[", "{\"a\":[", "[{\""}[s.Draw("soup-open", 8)])
+				}
+				n := 1 + s.Draw("soup-n", 14)
+				for i := 0; i < n; i++ {
+					sb.WriteString(toks[s.Draw("soup-tok", len(toks))])
+				}
+				text := sb.String()
+				if s.Draw("soup-cut", 2) == 0 && len(text) > 1 {
+					text = text[:1+s.Draw("soup-cut-at", len(text)-1)]
+				}
+				both([]byte(text), "token soup")
+			}
+			fired("token-soup")
+			res.Faults = append(res.Faults, "40 token soups")
+			res.Finger = fnv(0, hashString("soup"), uint64(s.Draw("soup-id", 1<<20)))
+		case "transcoded":
+			// the document re-encoded by a tool (UTF-16 LE/BE with byte order mark, UTF-8 BOM, Latin-1, NUL-interleaved, CRLF line ends)
+			var enc []byte
+			kind := []string{"utf16le-bom", "utf16be-bom", "utf16le", "utf8-bom", "latin1", "crlf", "nul-padded"}[s.Draw("transcode", 7)]
+			runes := []rune(doc)
+			switch kind {
+			case "utf16le-bom", "utf16le", "utf16be-bom":
+				if kind == "utf16le-bom" {
+					enc = append(enc, 0xFF, 0xFE)
+				} else if kind == "utf16be-bom" {
+					enc = append(enc, 0xFE, 0xFF)
+				}
+				for _, r := range runes {
+					units := []uint16{uint16(r)}
+					if r > 0xFFFF {
+						r -= 0x10000
+						units = []uint16{0xD800 + uint16(r>>10), 0xDC00 + uint16(r&0x3FF)}
+					}
+					for _, u := range units {
+						if kind == "utf16be-bom" {
+							enc = append(enc, byte(u>>8), byte(u))
+						} else {
+							enc = append(enc, byte(u), byte(u>>8))
+						}
+					}
+				}
+			case "utf8-bom":
+				enc = append([]byte{0xEF, 0xBB, 0xBF}, b...)
+			case "latin1":
+				for _, r := range runes {
+					enc = append(enc, byte(r))
+				}
+			case "crlf":
+				enc = []byte(strings.ReplaceAll(strings.ReplaceAll(doc, ",", ",\r\n"), "\\r\\n", "\\r\\n"))
+			default:
+				enc = append(append([]byte{0, 0, 0}, b...), 0, 0)
+			}
+			fired("transcoded-" + kind)
+			res.Faults = append(res.Faults, "document re-encoded: "+kind)
+			both(enc, "re-encoded document ("+kind+")")
+			res.Finger = fnv(0, hashString("transcoded"), hashString(kind), hashString(doc))
+		case "very-deep":
+			// nesting far beyond the generator's trees but well within what the stack can hold
+			depth := []int{5000, 9999, 10000, 10001, 10002, 20000, 65536, 100000}[s.Draw("very-deep", 8)]
+			var text string
+			if objRoot {
+				text = strings.Repeat("{\"d\":", depth) + "1" + strings.Repeat("}", depth)
+			} else {
+				text = strings.Repeat("[", depth) + "1" + strings.Repeat("]", depth)
+			}
+			fired("very-deep")
+			res.Faults = append(res.Faults, fmt.Sprintf("nesting depth %d", depth))
+			o := both([]byte(text), fmt.Sprintf("document nested %d levels", depth))
+			_ = o
+			// cut-off versions of it: still total, exclusive, rejected
+			for i := 0; i < 6 && !d.failed; i++ {
+				k := 1 + s.Draw("deep-cut", len(text)-1)
+				oc := parse(text[:k])
+				res.Evals++
+				if oc.class() != "error" {
+					d.fail("truncated-accepted", fmt.Sprintf("prefix of length %d of a document nested %d levels gives %s (panic %q)", k, depth, oc.class(), short(oc.pmsg, 100)))
+				}
+			}
+			res.Finger = fnv(0, hashString("very-deep"), uint64(depth), uint64(b2i(objRoot)))
 		case "tiny-inputs":
 			// every 1-byte input, every 2-byte input over an alphabet of structural and boundary bytes, drawn 3-byte inputs:
 			// totality on the shortest inputs (empty, a lone bracket, a lone lead byte, a byte order mark cut short)
